@@ -57,21 +57,21 @@ def writes (cfg : Cfg) (off now E : Int) : Path → Option (List Write)
   | .ingest =>
     match ingest_ttl_source E cfg (now + off) with
     | none => none
-    | some ttl => some [⟨.shard, publish_shards_expires (ingest_shard_ttl ttl) now⟩]
+    | some ttl => some [⟨.shard, publish_shards_expires (ingest_shard_ttl ttl cfg) now⟩]
   | .receive good =>
     match receive_ttl_source E cfg (now + off) with
     | none => none
     | some ttl =>
       if good then
-        some [⟨.shard, publish_shards_expires (receive_shard_ttl ttl) now⟩,
-              ⟨.contact "self", add_contact_expires (announce_chunk_contact_ttl (receive_announce_ttl ttl)) now⟩,
-              ⟨.chunk, Ttl.chunkStorePut cfg (receive_put_ttl ttl) now⟩]
+        some [⟨.shard, publish_shards_expires (receive_shard_ttl ttl cfg) now⟩,
+              ⟨.contact "self", add_contact_expires (announce_chunk_contact_ttl (receive_announce_ttl ttl cfg)) now⟩,
+              ⟨.chunk, Ttl.chunkStorePut cfg (receive_put_ttl ttl cfg) now⟩]
       else none
   | .announce peer attl endpoint assigned replicaLive =>
     match announce_ttl_source E cfg (now + off) with
     | none => none
     | some ttl =>
-      some ([⟨.shard, publish_shards_expires (announce_shard_ttl ttl) now⟩] ++
+      some ([⟨.shard, publish_shards_expires (announce_shard_ttl ttl cfg) now⟩] ++
             (if endpoint then [⟨.contact peer, add_contact_expires (announce_advertised_ttl attl ttl cfg) now⟩] else []) ++
             (if assigned && !replicaLive then [⟨.pending, pending_manifest_expires E cfg (now + off)⟩] else []))
 
